@@ -24,6 +24,21 @@ pub fn ts(secs: u64) -> emit::Timestamp {
     emit::Timestamp::from_unix(core::time::Duration::from_secs(secs)).unwrap()
 }
 
+/// 0 none, 1 point, 2 range with SYMBOLIC bounds in 0..=3 s (forwards, empty `t..t` and backwards ranges: all of
+/// them are range extents - "an empty range is still considered a range", emit_core::extent)
+#[cfg(kani)]
+pub fn extent_of_sym_range(kind: u8) -> Option<emit::Extent> {
+    match kind {
+        0 => None,
+        1 => Some(emit::Extent::point(ts(5))),
+        _ => {
+            let (a, b): (u8, u8) = (kani::any(), kani::any());
+            kani::assume(a <= 3 && b <= 3);
+            Some(emit::Extent::range(ts(a as u64)..ts(b as u64)))
+        }
+    }
+}
+
 /// 0 none, 1 point, 2 range
 pub fn extent_of(kind: u8) -> Option<emit::Extent> {
     match kind {
